@@ -927,7 +927,9 @@ Section FitFacts.
     (m1 = true /\ fit = (NaN, NaN))
     \/ (m1 = false /\ snd fit = Fin (hxv ny nx gk d axis) /\ 0 < hxv ny nx gk d axis).
   Proof.
-    unfold fit, marginal_fit. fold m1. destruct m1 eqn:E; [left; auto|right].
+    unfold fit, marginal_fit, marginal_of.
+    change (Qle_bool (hx_numer ny nx gk d axis) 0 || Qle_bool (hx_denom ny nx gk axis) 0) with m1.
+    destruct m1 eqn:E; [left; auto|right].
     split; [reflexivity|]. split; [reflexivity|].
     destruct (mask1_false E) as [A B]. unfold hxv. apply Qlt_shift_div_l; lra.
   Qed.
@@ -936,8 +938,12 @@ Section FitFacts.
   (* a finite centroid shift never exceeds half the kernel size *)
   Lemma dx_bounded v : fst fit = Fin v -> Qabs v <= hsize ny nx axis.
   Proof.
-    unfold fit, marginal_fit. destruct (mask1 ny nx gk d axis); [discriminate|]. cbn [fst].
-    set (dx1 := if fabs_gt (dx0 ny nx gk s2x s2y d axis) (hsize ny nx axis) then _ else _).
+    unfold fit, marginal_fit, marginal_of.
+    change (Qle_bool (hx_numer ny nx gk d axis) 0 || Qle_bool (hx_denom ny nx gk axis) 0)
+      with (mask1 ny nx gk d axis).
+    destruct (mask1 ny nx gk d axis); [discriminate|]. cbn [fst].
+    set (D0 := fdiv _ _).
+    set (dx1 := if fabs_gt D0 (hsize ny nx axis) then _ else D0).
     destruct (fabs_gt dx1 (hsize ny nx axis)) eqn:G.
     - intros [= <-]. cbn. apply hsize_nonneg.
     - intros E. rewrite E in G. cbn in G. apply Qlt_bool_false in G. exact G.
@@ -946,8 +952,14 @@ Section FitFacts.
   Lemma dx_nonfinite : m1 = false ->
     (is_fin (fst fit) = false <-> dx_numer ny nx gk d axis == 0 /\ dx_denom ny nx gk s2x s2y d axis == 0).
   Proof.
-    intros E. unfold fit, marginal_fit. fold m1. rewrite E. cbn [fst].
-    rewrite <- fdiv_nan. fold (dx0 ny nx gk s2x s2y d axis).
+    intros E. unfold fit, marginal_fit, marginal_of.
+    change (Qle_bool (hx_numer ny nx gk d axis) 0 || Qle_bool (hx_denom ny nx gk axis) 0) with m1.
+    rewrite E. cbn [fst].
+    rewrite <- fdiv_nan.
+    change (fdiv (dx_numer ny nx gk d axis)
+                 (hx_numer ny nx gk d axis / hx_denom ny nx gk axis * dkern_dx2_sum ny nx gk axis / sigma2 s2x s2y axis))
+      with (dx0 ny nx gk s2x s2y d axis).
+    change (fdiv (dx_numer ny nx gk d axis) (dx_denom ny nx gk s2x s2y d axis)) with (dx0 ny nx gk s2x s2y d axis).
     destruct (dx0 ny nx gk s2x s2y d axis) as [q| | |] eqn:D; cbn [fabs_gt].
     - destruct (Qlt_bool (hsize ny nx axis) (Qabs q)).
       + destruct (Qeq_bool (data_sum ny nx d axis) 0); cbn [fabs_gt];
@@ -1037,7 +1049,20 @@ Section FitScale.
   Lemma roundness2_scale :
     feq (roundness2 ny nx gk s2x s2y d') (roundness2 ny nx gk s2x s2y d).
   Proof.
-    unfold roundness2, dx_hx, dy_hy, marginal_fit. rewrite !mask1_scale.
+    unfold roundness2, dx_hx, dy_hy, marginal_fit, marginal_of.
+    change (Qle_bool (hx_numer ny nx gk d' false) 0 || Qle_bool (hx_denom ny nx gk false) 0)
+      with (mask1 ny nx gk d' false).
+    change (Qle_bool (hx_numer ny nx gk d' true) 0 || Qle_bool (hx_denom ny nx gk true) 0)
+      with (mask1 ny nx gk d' true).
+    change (Qle_bool (hx_numer ny nx gk d false) 0 || Qle_bool (hx_denom ny nx gk false) 0)
+      with (mask1 ny nx gk d false).
+    change (Qle_bool (hx_numer ny nx gk d true) 0 || Qle_bool (hx_denom ny nx gk true) 0)
+      with (mask1 ny nx gk d true).
+    change (hx_numer ny nx gk d' false / hx_denom ny nx gk false) with (hxv ny nx gk d' false).
+    change (hx_numer ny nx gk d' true / hx_denom ny nx gk true) with (hxv ny nx gk d' true).
+    change (hx_numer ny nx gk d false / hx_denom ny nx gk false) with (hxv ny nx gk d false).
+    change (hx_numer ny nx gk d true / hx_denom ny nx gk true) with (hxv ny nx gk d true).
+    rewrite !mask1_scale.
     destruct (mask1 ny nx gk d false); [exact I|]. destruct (mask1 ny nx gk d true); [exact I|].
     cbn [snd]. eapply feq_trans; [|apply (fdiv_scale k _ _ Hk)].
     apply fdiv_comp; rewrite !hxv_scale; ring.
@@ -1557,3 +1582,12 @@ Section SfFacts.
   Lemma sf_round_sq_range r : round_sq sny snx a = Fin r -> 0 <= r <= 1.
   Proof. apply round_sq_range. exact sf_pix_nonneg. Qed.
 End SfFacts.
+
+(* ================================================================== *)
+(* 8. the values compared by the DAOFIND correspondence check ARE the model's statistics *)
+(* ================================================================== *)
+Lemma dao_eval_is_model ny nx mask gk s2x s2y im conv yp xp :
+  fst (fst (dao_eval ny nx mask gk s2x s2y (kern_sums ny nx gk false) (kern_sums ny nx gk true)
+                     (cutout im ny nx yp xp) (cutout conv ny nx yp xp) yp xp))
+  = dao_stats ny nx mask gk s2x s2y im conv yp xp.
+Proof. reflexivity. Qed.
